@@ -413,17 +413,33 @@ class QueryPlanner:
         # split to select from api database
         #     keep only limit and where
         #     the rest goes to outer select
-        query2 = Select(
-            targets=query.targets,
-            from_table=query.from_table,
-            where=query.where,
-            order_by=query.order_by,
-            limit=query.limit,
-        )
+        def is_aggregate(node, **kwargs):
+            if isinstance(node, Function) and node.op.lower() in ('count', 'sum', 'min', 'max', 'avg', 'std'):
+                aggregates.append(node)
+        aggregates = []
+        query_traversal(list(query.targets), is_aggregate)
+
+        if query.group_by is not None or query.having is not None or query.distinct or len(aggregates) > 0:
+            # aggregation is done once, in the outer select: fetch plain rows, don't order / limit them
+            query2 = Select(
+                targets=[Star()],
+                from_table=query.from_table,
+                where=query.where,
+            )
+        else:
+            query2 = Select(
+                targets=query.targets,
+                from_table=query.from_table,
+                where=query.where,
+                order_by=query.order_by,
+            )
+            if query.offset is None:
+                # with OFFSET the limit has to be applied after skipping rows: keep both in the outer select
+                query2.limit = query.limit
+                query.limit = None
         prev_step = self.plan_integration_select(query2)
 
-        # clear limit and where
-        query.limit = None
+        # clear where
         query.where = None
         return self.plan_sub_select(query, prev_step)
 
